@@ -40,6 +40,18 @@ Theorem apply_handout_gap_free_and_committed :
 Proof. exact entries_to_apply_range_proved. Qed.
 Print Assumptions apply_handout_gap_free_and_committed.
 
+(* a raft log query is answered from the committed part of the log only *)
+Theorem log_query_committed_only : forall r m fi la err ents,
+  r_log_query r = None ->
+  r_log_query (handle_log_query r m) = Some (fi, la, err, ents) ->
+  fi = log_first (r_log r) /\ la = l_committed (r_log r) + 1 /\
+  (err = true -> ents = []) /\
+  (err = false -> ents = [] \/
+     (log_first (r_log r) <= m_from m <= l_committed (r_log r) /\
+      ents = log_entries_range (r_log r) (m_from m) (N.min (m_to m) (l_committed (r_log r) + 1)))).
+Proof. exact log_query_committed_only_proved. Qed.
+Print Assumptions log_query_committed_only.
+
 (* the unrolled sort used by tryCommit really sorts and keeps the multiset *)
 Theorem match_array_sorted : forall l, sorted (sort_n l).
 Proof. exact sort_sorted. Qed.
